@@ -43,6 +43,7 @@ def generate(rng, tier):
     hs = [("prompt", ["E", "E", ("L", S.GOOD_VERSION), "E", ("L", "CU,OK"), "E", ("L", "QT,Bot")]),
           ("late", ["E", "E", "E", "E", ("L", S.GOOD_VERSION), "E", ("L", "CU"), "E", ("L", "QT,")]),
           ("silent", ["E", "E", "E", "E", "E"]), ("not-ebb", ["E", "E", ("L", "Arduino ready"), "E", ("L", "??")]),
+          ("blank-lines", ["E", "E", ("L", ""), "E", ("L", "")]), ("text-then-blank", ["E", "E", ("L", "ok"), "E", ("L", " ")]), ("blank-then-silent", ["E", "E", ("L", ""), "E", "E"]),
           ("open-fault", ["F"]), ("write1-fault", ["E", "F"]), ("read1-fault", ["E", "E", "F"]), ("write2-fault", ["E", "E", "E", "F"]), ("read2-fault", ["E", "E", "E", "E", "F"]),
           ("nick-timeout", ["E", "E", ("L", S.GOOD_VERSION), "E", ("L", "CU,OK"), "E"] + ["E"] * 27),
           ("ebb-second-probe-old", ["E", "E", ("L", "garbage"), "E", ("L", "EBBv13_and_above EB Firmware Version 2.8.1")])]
@@ -58,7 +59,8 @@ def generate(rng, tier):
     # a device that has not identified itself as a supported EBB must never be sent anything but the version probe
     hsk = [("good", S.connect_script()), ("old", ["E", "E", ("L", "EBBv13_and_above EB Firmware Version 2.8.1")]),
            ("old-multidigit", ["E", "E", ("L", "EBBv13_and_above EB Firmware Version 2.10.12")]), ("old-late", ["E", "E", "E", "E", ("L", "EBBv13_and_above EB Firmware Version 3.0.1")]),
-           ("not-ebb", ["E", "E", ("L", "hello"), "E", ("L", "world")]), ("silent", ["E", "E", "E", "E", "E"]), ("open-fails", ["F"])]
+           ("not-ebb", ["E", "E", ("L", "hello"), "E", ("L", "world")]), ("silent", ["E", "E", "E", "E", "E"]), ("open-fails", ["F"]),
+           ("blank-lines", ["E", "E", ("L", ""), "E", ("L", " ")])]
     reps = 1 if tier == "quick" else 15
     for _ in range(reps):
         for n1, h1 in hsk:
